@@ -287,7 +287,7 @@ func (h *hist) recheck(all []*issued, step int, what string) {
 
 func run(c *core.Ctx) {
 	pairs := authority.Pairs()
-	nh := c.N(8, 48)
+	nh := c.N(12, 60)
 	t0 := time.Date(2024, 3, 1, 0, 0, 0, 0, time.UTC) // before the provenance date so that timestamps fall on both sides
 	issuedTotal := 0
 	for hi := 0; hi < nh; hi++ {
@@ -298,7 +298,8 @@ func run(c *core.Ctx) {
 		p := pairs[hi%len(pairs)]
 		dir, _ := os.MkdirTemp("", "verif-c03-")
 		a := authority.New(p[0], p[1], dir)
-		h := &hist{c: c, idx: hi, gname: fmt.Sprintf("history#%d %s", hi, a.Name()), a: a, vcs: doubles.NewMemVCS(nil), vcek: map[int64][]byte{}}
+		a.LongLived = (hi/len(pairs))%2 == 1 // every other pass over the assemblies keeps one CA value alive across commands
+		h := &hist{c: c, idx: hi, gname: fmt.Sprintf("history#%d %s long-lived-ca=%v", hi, a.Name(), a.LongLived), a: a, vcs: doubles.NewMemVCS(nil), vcek: map[int64][]byte{}}
 		c.Begin(hi, h.gname, "bootstrap/rotate/endorse", nil)
 		bc := authority.DefaultBootstrap(t0)
 		if r.IntN(2) == 0 {
@@ -312,10 +313,16 @@ func run(c *core.Ctx) {
 		}
 		var all []*issued
 		var cmds []string
+		var lastSerial *big.Int
+		lastCN := "signingKeyCn"
+		if st := a.Observe(); st.PrimaryCert != nil {
+			lastSerial, _ = new(big.Int).SetString(st.PrimaryCert.Subject.SerialNumber, 10)
+		}
 		ncmd := 5 + r.IntN(c.N(3, 8))
 		now := t0
 		for step := 1; step <= ncmd; step++ {
-			if step > 1 && r.IntN(5) < 2 {
+			forceSame := a.LongLived && step == 2 // directed: a rotation that re-uses the certificate object name, then an endorse
+			if forceSame || (step > 1 && step != 3 && r.IntN(5) < 2) {
 				now = now.Add(time.Duration(1+r.IntN(200)) * 24 * time.Hour)
 				skc := &rotate.SigningKeyContext{SigningKeyCommonName: "signingKeyCn", Now: now}
 				if r.IntN(4) == 0 {
@@ -324,8 +331,18 @@ func run(c *core.Ctx) {
 				if r.IntN(4) == 0 {
 					skc.SigningKeyCommonName = fmt.Sprintf("signingKeyCn-%d", step)
 				}
-				_, err := a.Rotate(&doubles.FCtl{}, authority.Opts{}, skc)
-				cmds = append(cmds, fmt.Sprintf("rotate(now=%s serial=%v) -> %v", now.Format("2006-01-02"), skc.SigningKeySerial, err))
+				ropts := authority.Opts{}
+				if (forceSame || r.IntN(4) == 0) && lastSerial != nil {
+					// re-use the serial (hence the certificate object name) of the previous signing certificate, allowed by --overwrite
+					skc.SigningKeySerial, skc.SigningKeyCommonName = new(big.Int).Set(lastSerial), lastCN
+					ropts.Overwrite = true
+				}
+				_, err := a.Rotate(&doubles.FCtl{}, ropts, skc)
+				if st := a.Observe(); st.PrimaryCert != nil {
+					lastSerial, _ = new(big.Int).SetString(st.PrimaryCert.Subject.SerialNumber, 10)
+					lastCN = st.PrimaryCert.Subject.CommonName
+				}
+				cmds = append(cmds, fmt.Sprintf("rotate(now=%s serial=%v overwrite=%v) -> %v", now.Format("2006-01-02"), skc.SigningKeySerial, ropts.Overwrite, err))
 				if err != nil {
 					h.viol("fault-free-rotation-failed", "step %d: %v", step, err)
 				}
@@ -344,12 +361,38 @@ func run(c *core.Ctx) {
 			}
 			shape := fmt.Sprintf("snp=%v(vmsas=%d) tdx=%v(shapes=%d early=%v) svsm=%v snapshot=%v after-provenance-date=%v", ec.SevSnp != nil, vm(ec), ec.Tdx != nil, shapes(ec), early(ec),
 				len(ec.SvsmSnpMeasurement) > 0, snapshot, ec.Timestamp.After(endreq.ReleaseChange))
-			err := a.Endorse(&doubles.FCtl{}, authority.Opts{}, ec)
+			ef := &doubles.FCtl{}
+			interleave := 0
+			if step > 1 && r.IntN(5) == 0 {
+				// a rotation lands in the middle of this endorse run, right before its k-th call to CA / signer / VCS
+				interleave = 1 + r.IntN(8)
+				now = now.Add(24 * time.Hour)
+				rnow := now
+				ef.Hook = func(seq int, name string) {
+					if seq == interleave {
+						_, rerr := a.Rotate(&doubles.FCtl{}, authority.Opts{}, &rotate.SigningKeyContext{SigningKeyCommonName: "signingKeyCn", Now: rnow})
+						cmds = append(cmds, fmt.Sprintf("  (rotation interleaved before endorse call %d %s -> %v)", seq, name, rerr))
+					}
+				}
+			}
+			err := a.Endorse(ef, authority.Opts{}, ec)
 			c.Eval(1)
 			cmds = append(cmds, fmt.Sprintf("endorse(%s) -> %v", shape, err))
 			if err != nil {
+				if interleave != 0 {
+					// failing cleanly while the key changes underneath is allowed; nothing may have been written
+					c.Count("endorse-failed-cleanly-under-interleaved-rotation", 1)
+					if _, ok := h.vcs.Head["out/"+ec.CandidateName+".binarypb"]; ok {
+						h.viol("failed-endorse-left-a-file", "step %d: endorse failed (%v) but its file is in the committed head", step, err)
+					}
+					h.recheck(all, step, "endorse+interleaved-rotate")
+					continue
+				}
 				h.viol("fault-free-endorse-failed", "step %d (%s): %v", step, shape, err)
 				continue
+			}
+			if interleave != 0 {
+				c.Cell("%s|endorse-with-interleaved-rotation|at-call-%d", a.Name(), interleave)
 			}
 			path := "out/" + ec.CandidateName + ".binarypb"
 			if snapshot {
